@@ -292,7 +292,7 @@ def rule_segmerge(ctx):
     app_key = [(c.id, p) for c, p in symeval.pc_conds(app[0].pc)]
     ext_key = [(c.id, p) for c, p in symeval.pc_conds(e.pc)]
     complementary = len(app_key) == len(ext_key) and app_key[:-1] == ext_key[:-1] and app_key[-1][0] == ext_key[-1][0] and app_key[-1][1] != ext_key[-1][1]
-    good = tm.is_const(e.key, -1) and e.old.op == "sub" and tm.is_const(e.old.a[1], -1) and e.val.op == "iter" and complementary
+    good = (tm.is_const(e.key, -1) or tm.is_const(e.key, 1)) and e.old.op == "sub" and tm.is_const(e.old.a[1], -1) and e.val.op == "iter" and complementary
     col = e.val.a[0] if e.val.op == "iter" else None
     good = good and col is not None and col.op == "sub" and tm.show(col.a[1], 2).endswith("1)")
     yield ob(R, f, "chord.merge_chord_intervals:extend", good, "otherwise the end of the previous merged interval is moved to the current row's end (merged[-1][-1] = e)", node=e.node)
